@@ -957,6 +957,7 @@ theorem fits_take (enc : Enc) (ty : Ty) (d : Doc) (k : Nat) (h : Fits enc ty (.o
   | prop h => exact fits_take_aux enc _ d k (.prop h)
   | map h => exact .map (fun k' o v hm => h k' o v (List.mem_of_mem_take hm))
   | st h => exact .st (fun k' o v hm i t hl => h k' o v (List.mem_of_mem_take hm) i t hl)
+  | leafOnObj h => exact .leafOnObj h
 where
   fits_take_aux (enc : Enc) : ∀ (ty : Ty) (d : Doc) (k : Nat), Fits enc ty (.obj d) → Fits enc ty (.obj (d.take k))
     | _, d, k, .ign => .ign
@@ -964,6 +965,7 @@ where
     | _, d, k, .prop h => .prop (fits_take_aux enc _ d k h)
     | _, d, k, .map h => .map (fun k' o v hm => h k' o v (List.mem_of_mem_take hm))
     | _, d, k, .st h => .st (fun k' o v hm i t hl => h k' o v (List.mem_of_mem_take hm) i t hl)
+    | _, d, k, .leafOnObj h => .leafOnObj h
 
 theorem fitsT_take (enc : Enc) : ∀ (b : Bool) (ty : Ty) (d : Doc) (k : Nat), FitsT enc b ty (.obj d) → FitsT enc b ty (.obj (d.take k))
   | _, _, d, k, .ign => .ign
@@ -971,6 +973,7 @@ theorem fitsT_take (enc : Enc) : ∀ (b : Bool) (ty : Ty) (d : Doc) (k : Nat), F
   | _, _, d, k, .prop h => .prop (fitsT_take enc _ _ d k h)
   | _, _, d, k, .map h => .map (fun k' o v hm => h k' o v (List.mem_of_mem_take hm))
   | _, _, d, k, .st h => .st (fun k' o v hm i t hl => h k' o v (List.mem_of_mem_take hm) i t hl)
+  | _, _, d, k, .leafOnObj h => .leafOnObj h
 
 /-- C19, stream path, document form: the reader tokens cut after the first `k` complete top-level
 fields deserialize to the value of the document made of those `k` fields -/
